@@ -200,6 +200,14 @@ type Script struct {
 	AutoFinish        After
 	AutoFinishVariant int
 	SessionID         string // default "4F3A9C21"
+	// GluePlay: the first GluePlay of the Initial frames travel in the same TCP
+	// write as the PLAY answer (Initial is raised to GluePlay when smaller).
+	// GlueKeepAlive: while playing, the answer to a keep-alive request and the next
+	// GlueKeepAlive frames of the programme go out in one write; this is done for
+	// the first KeepAliveGlues keep-alive requests.
+	GluePlay       int
+	GlueKeepAlive  int
+	KeepAliveGlues int
 	// OnPlay, when set, is called when a PLAY request is about to be answered
 	// (whatever the answer will be), before any byte of the answer is written.
 	OnPlay         func()
@@ -234,22 +242,24 @@ func (r *Request) Get(name string) string {
 
 // ConnRecord is what happened on one accepted connection.
 type ConnRecord struct {
-	Accepted      time.Time
-	Requests      []Request
-	PlayOK        bool   // PLAY was answered with a well-formed 200
-	PeerClosed    bool   // the peer's FIN or RST was observed while the camera still held the socket
-	PeerCloseHow  string // "fin", "rst", or the error text
-	PeerClosedAt  time.Time
-	SelfClosed    string // "", "rst", "shutdown-wr", "teardown"
-	SelfClosedAt  time.Time
-	FramesSent    int
-	FramesSkipped int // frames of a track that was never set up
-	KeepAlives    int
-	ParseError    string // the peer sent something that is no RTSP request
-	Interleaved   int    // '$' frames received from the peer
-	Responses     int    // RTSP responses received from the peer
-	WriteError    string
-	Channels      [2][2]int // [track][rtp,rtcp] interleaved channel numbers granted; -1 = not set up
+	Accepted           time.Time
+	Requests           []Request
+	PlayOK             bool   // PLAY was answered with a well-formed 200
+	PeerClosed         bool   // the peer's FIN or RST was observed while the camera still held the socket
+	PeerCloseHow       string // "fin", "rst", or the error text
+	PeerClosedAt       time.Time
+	SelfClosed         string // "", "rst", "shutdown-wr", "teardown"
+	SelfClosedAt       time.Time
+	FramesSent         int
+	GluedWithPlay      int // frames written together with the PLAY answer
+	GluedWithKeepAlive int // frames written together with keep-alive answers
+	FramesSkipped      int // frames of a track that was never set up
+	KeepAlives         int
+	ParseError         string // the peer sent something that is no RTSP request
+	Interleaved        int    // '$' frames received from the peer
+	Responses          int    // RTSP responses received from the peer
+	WriteError         string
+	Channels           [2][2]int // [track][rtp,rtcp] interleaved channel numbers granted; -1 = not set up
 }
 
 // Camera is a running fake camera.
@@ -272,6 +282,7 @@ type conn struct {
 	br  *bufio.Reader
 
 	wmu sync.Mutex // serialises writes (answers vs frames)
+	fmu sync.Mutex // taking the next frame(s) of the programme and writing them is one step (wire order = programme order); taken before wmu
 
 	mu          sync.Mutex
 	rec         ConnRecord
@@ -283,6 +294,7 @@ type conn struct {
 	wshut       bool // sending direction shut down
 	gone        bool // socket closed by the camera
 	nextFrame   int
+	kaGlues     int
 	cmd         chan command
 	session     string
 	peerClosedC chan struct{}
@@ -1197,19 +1209,44 @@ func (cn *conn) handle(r *Request) bool {
 	}
 	// the state change goes first: the peer may react to the answer at once
 	if r.Method == "PLAY" {
-		cn.wmu.Lock() // frames must not overtake the PLAY answer
+		cn.fmu.Lock() // frames must not overtake the PLAY answer
+		out := []byte(full)
+		if step == Play && sc.GluePlay > 0 {
+			wire, k := cn.takeFrames(sc.GluePlay)
+			out = append(out, wire...) // one write: the answer and the first frames share a segment
+			cn.mu.Lock()
+			cn.rec.GluedWithPlay += k
+			cn.rec.FramesSent += k
+			cn.mu.Unlock()
+		}
+		cn.wmu.Lock()
 		after()
 		cn.mu.Lock()
 		blocked := cn.mute || cn.wshut || cn.gone
 		cn.mu.Unlock()
 		if !blocked {
 			cn.nc.SetWriteDeadline(time.Now().Add(10 * time.Second))
-			cn.nc.Write([]byte(full))
+			cn.nc.Write(out)
 		}
 		cn.wmu.Unlock()
+		cn.fmu.Unlock()
 		return true
 	}
 	after()
+	if step == KeepAlive && sc.GlueKeepAlive > 0 && cn.kaGlues < sc.KeepAliveGlues {
+		cn.kaGlues++
+		cn.fmu.Lock()
+		wire, k := cn.takeFrames(sc.GlueKeepAlive)
+		ok := cn.write(append([]byte(full), wire...))
+		cn.fmu.Unlock()
+		if ok {
+			cn.mu.Lock()
+			cn.rec.GluedWithKeepAlive += k
+			cn.rec.FramesSent += k
+			cn.mu.Unlock()
+		}
+		return true
+	}
 	cn.write([]byte(full))
 	return true
 }
@@ -1272,17 +1309,16 @@ func Interleave(channel int, data []byte) []byte {
 	return out
 }
 
-func (cn *conn) sendFrames(n int, gap time.Duration) {
+// takeFrames renders the next k frames of the programme as interleaved units
+// (frames of tracks that were not set up are skipped and counted). The caller
+// holds fmu and writes the result before releasing it.
+func (cn *conn) takeFrames(k int) (wire []byte, n int) {
 	sc := &cn.cam.sc
-	for i := 0; i < n; i++ {
-		cn.mu.Lock()
-		idx := cn.nextFrame
-		if idx >= len(sc.Frames) {
-			cn.mu.Unlock()
-			return
-		}
+	cn.mu.Lock()
+	defer cn.mu.Unlock()
+	for i := 0; i < k && cn.nextFrame < len(sc.Frames); i++ {
+		f := sc.Frames[cn.nextFrame]
 		cn.nextFrame++
-		f := sc.Frames[idx]
 		ch := -1
 		if f.Track >= 0 && f.Track < 2 {
 			ch = cn.rec.Channels[f.Track][0]
@@ -1290,22 +1326,38 @@ func (cn *conn) sendFrames(n int, gap time.Duration) {
 				ch = cn.rec.Channels[f.Track][1]
 			}
 		}
-		cn.mu.Unlock()
 		if ch < 0 {
-			cn.mu.Lock()
 			cn.rec.FramesSkipped++
-			cn.mu.Unlock()
 			continue
 		}
+		wire = append(wire, Interleave(ch, f.Data)...)
+		n++
+	}
+	return
+}
+
+func (cn *conn) sendFrames(n int, gap time.Duration) {
+	for i := 0; i < n; i++ {
 		if i > 0 && gap > 0 {
 			time.Sleep(gap)
 		}
-		if !cn.write(Interleave(ch, f.Data)) {
+		cn.fmu.Lock()
+		wire, k := cn.takeFrames(1)
+		ok := true
+		if k > 0 {
+			ok = cn.write(wire)
+		}
+		cn.fmu.Unlock()
+		if !ok {
 			return
 		}
 		cn.mu.Lock()
-		cn.rec.FramesSent++
+		cn.rec.FramesSent += k
+		done := cn.nextFrame >= len(cn.cam.sc.Frames)
 		cn.mu.Unlock()
+		if done {
+			return
+		}
 	}
 }
 
@@ -1347,7 +1399,12 @@ func (cn *conn) player() {
 	defer cn.cam.wg.Done()
 	defer close(cn.playerDone)
 	sc := &cn.cam.sc
-	cn.sendFrames(sc.Initial, 0)
+	cn.mu.Lock()
+	rest := sc.Initial - cn.nextFrame // what did not travel with the PLAY answer
+	cn.mu.Unlock()
+	if rest > 0 {
+		cn.sendFrames(rest, 0)
+	}
 	if sc.AutoFinish != Continue {
 		cn.finish(sc.AutoFinish, sc.AutoFinishVariant)
 	}
